@@ -547,6 +547,129 @@ pub fn native_ints(cfg: &cgv_core::fw::RunCfg, extra: &mut cgv_core::fw::Extra) 
     );
 }
 
+/// Products of badly scaled matrices (entries m*2^e, |m| < 2^11, e in [-20,20],
+/// all exactly representable in f32) on the native f32 and f64 types, against a
+/// double-double model of the documented sums, with the componentwise bound
+/// |err| <= 512 eps sum_k |a_rk||b_kc| (the documented dot products stay below
+/// 3 eps of that sum).  An algebraically equivalent product with different
+/// cancellation (Strassen, Winograd) or a fast path that treats "almost the
+/// identity" as the identity is off by many orders of magnitude here while
+/// being invisible on small integers and to the exact-rational engine.
+pub fn native_scaled(cfg: &cgv_core::fw::RunCfg, extra: &mut cgv_core::fw::Extra) {
+    use cgmath::BaseFloat;
+    use cgv_core::acc::Acc;
+    use cgv_core::dd;
+    use serde_json::json;
+    fn run<T: BaseFloat>(tag: &str, a: &[[f64; 4]; 4], b: &[[f64; 4]; 4], v: &[f64; 4], eps: f64, acc: &mut Acc, inputs: &dyn Fn() -> serde_json::Value) {
+        let f = |x: f64| T::from(x).unwrap();
+        let g = |x: T| x.to_f64().unwrap();
+        let m4 = |m: &[[f64; 4]; 4]| {
+            Matrix4::new(
+                f(m[0][0]), f(m[0][1]), f(m[0][2]), f(m[0][3]), f(m[1][0]), f(m[1][1]), f(m[1][2]), f(m[1][3]),
+                f(m[2][0]), f(m[2][1]), f(m[2][2]), f(m[2][3]), f(m[3][0]), f(m[3][1]), f(m[3][2]), f(m[3][3]),
+            )
+        };
+        let m3 = |m: &[[f64; 4]; 4]| {
+            Matrix3::new(f(m[0][0]), f(m[0][1]), f(m[0][2]), f(m[1][0]), f(m[1][1]), f(m[1][2]), f(m[2][0]), f(m[2][1]), f(m[2][2]))
+        };
+        let m2 = |m: &[[f64; 4]; 4]| Matrix2::new(f(m[0][0]), f(m[0][1]), f(m[1][0]), f(m[1][1]));
+        let p4 = m4(a) * m4(b);
+        let p3 = m3(a) * m3(b);
+        let p2 = m2(a) * m2(b);
+        let v4 = m4(a) * Vector4::new(f(v[0]), f(v[1]), f(v[2]), f(v[3]));
+        let v3 = m3(a) * Vector3::new(f(v[0]), f(v[1]), f(v[2]));
+        let v2 = m2(a) * Vector2::new(f(v[0]), f(v[1]));
+        for n in [2usize, 3, 4] {
+            for r in 0..n {
+                let row: Vec<f64> = (0..n).map(|k| a[k][r]).collect();
+                let (want, cond) = dd::dot(&row, &v[..n]);
+                let got = match n {
+                    2 => g(v2[r]),
+                    3 => g(v3[r]),
+                    _ => g(v4[r]),
+                };
+                acc.check(&format!("{tag} {n}x{n} (A*v)[{r}]"), got, want, 512.0 * eps * cond, inputs);
+                for c in 0..n {
+                    let (want, cond) = dd::dot(&row, &b[c][..n]);
+                    let got = match n {
+                        2 => g(p2[c][r]),
+                        3 => g(p3[c][r]),
+                        _ => g(p4[c][r]),
+                    };
+                    acc.check(&format!("{tag} {n}x{n} (A*B)[{c}][{r}]"), got, want, 512.0 * eps * cond, inputs);
+                }
+            }
+        }
+    }
+    let n = if cfg.tier == Tier::Quick { 3000 } else { 200_000 };
+    let mut acc = Acc::new("c01_badly_scaled_products");
+    for i in 0..n {
+        let mut rng = Rng::for_case(cfg.seed, "native_scaled", i);
+        let class = rng.below(3);
+        let entry = |rng: &mut Rng| (rng.range(-2047, 2047) as f64) * (2.0f64).powi(rng.range(-20, 20) as i32);
+        let mut a = [[0.0f64; 4]; 4];
+        let mut b = [[0.0f64; 4]; 4];
+        let mut v = [0.0f64; 4];
+        for c in 0..4 {
+            for r in 0..4 {
+                a[c][r] = entry(&mut rng);
+                b[c][r] = entry(&mut rng);
+            }
+            v[c] = entry(&mut rng);
+        }
+        let mut a32 = a;
+        match class {
+            1 => {
+                // identity plus perturbations around machine epsilon (per type)
+                for c in 0..4 {
+                    for r in 0..4 {
+                        let s = if rng.bool() { 1.0 } else { -1.0 };
+                        a[c][r] = if c == r { 1.0 } else { s * (2.0f64).powi(-(rng.range(50, 62) as i32)) };
+                        a32[c][r] = if c == r { 1.0 } else { s * (2.0f64).powi(-(rng.range(21, 33) as i32)) };
+                    }
+                }
+                acc.case("identity plus epsilon-sized perturbations times badly scaled");
+            }
+            2 => {
+                // one dominant entry per matrix (the Strassen counter-example family)
+                let (c, r) = (rng.below(2) as usize, rng.below(2) as usize);
+                a[c][r] *= (2.0f64).powi(rng.range(10, 30) as i32);
+                a32 = a;
+                acc.case("one dominant entry");
+            }
+            _ => {
+                acc.case("entries m*2^e, e in [-20,20]");
+            }
+        }
+        let inputs64 = || json!({"a": a, "b": b, "v": v, "index": i});
+        let inputs32 = || json!({"a": a32, "b": b, "v": v, "index": i});
+        match cgv_core::fw::catch(|| {
+            let mut local = Acc::new("c01_badly_scaled_products");
+            run::<f64>("f64", &a, &b, &v, f64::EPSILON, &mut local, &inputs64);
+            run::<f32>("f32", &a32, &b, &v, f32::EPSILON as f64, &mut local, &inputs32);
+            local
+        }) {
+            Ok(l) => {
+                acc.checks += l.checks;
+                acc.worst = acc.worst.max(l.worst);
+                if acc.fail.is_none() {
+                    acc.fail = l.fail;
+                }
+            }
+            Err(p) => acc.truth(&format!("unexpected panic: {p}"), false, &inputs64),
+        }
+        if acc.failed() {
+            break;
+        }
+    }
+    acc.finish(extra, "double-double model of the documented sums; allowance 512 eps * sum_k |a_rk||b_kc| per element");
+}
+
+pub fn native(cfg: &cgv_core::fw::RunCfg, extra: &mut cgv_core::fw::Extra) {
+    native_ints(cfg, extra);
+    native_scaled(cfg, extra);
+}
+
 const EP_LAYOUT: &[&str] = &[
     "Matrix{2,3,4}::new",
     "Matrix{2,3,4}::from_cols",
